@@ -11,21 +11,73 @@ Definition tables (nv : N) (m : mgr) (hs : list N) : list N :=
   let rows := map (fun k => (k, eval_arena (sigma_of k) (nodes m))) (indices nv) in
   map (fun h => fold_left (fun acc kr => if nth (N.to_nat h) (snd kr) false then N.lor acc (N.shiftl 1 (fst kr)) else acc) rows 0) hs.
 
+(* big numbers print slowly (number notations are un-interpreted by reduction): a truth table is rendered as its
+   eight 32-bit words, least significant first *)
+Definition words (t : N) : list N :=
+  map (fun i => N.land (N.shiftr t (32 * N.of_nat i)) 4294967295) (seq 0 8).
+
 Definition qr (q : Q) : Z * N := let r := Qred q in (Qnum r, Npos (Qden r)).
 Definition blit (l : lit) : N * N := (fst l, if snd l then 1 else 0).
 
+(* Spec truth tables of all slots, bottom-up over the slot references of the history (the formula trees
+   `rf` share subformulas, so `feval` on them re-evaluates shared parts exponentially often): the value of
+   a slot under sigma is `feval` unfolded one level, reading the operand slots' values; a slot whose
+   operation did not return Ok is FALSE. *)
+Definition sval (sigma : asg) (vals : list bool) (o : op) (ok : bool) : option bool :=
+  match o with
+  | OVar _ _ _ _ => None
+  | OLit v pol _ => Some (ok && Bool.eqb (sigma v) pol)
+  | OApply i j bo _ => Some (ok && bop_sem bo (nth (N.to_nat i) vals false) (nth (N.to_nat j) vals false))
+  | ONeg i _ => Some (ok && negb (nth (N.to_nat i) vals false))
+  | OEo vs _ => Some (ok && feval sigma (FExactlyOne vs))
+  end.
+Definition spec_row (sigma : asg) (ops : list op) (codes : list N) : list bool :=
+  fold_left (fun vals oc => match sval sigma vals (fst oc) (snd oc =? 0) with Some b => vals ++ [b] | None => vals end)
+            (combine ops codes) [].
+Definition spec_tables (nv : N) (ops : list op) (codes : list N) : list N :=
+  let rows := map (fun k => (k, spec_row (sigma_of k) ops codes)) (indices nv) in
+  let n := length (filter (fun o => match o with OVar _ _ _ _ => false | _ => true end) ops) in
+  map (fun i => fold_left (fun acc kr => if nth i (snd kr) false then N.lor acc (N.shiftl 1 (fst kr)) else acc) rows 0)
+      (seq 0 n).
+
+(* shared tables: `wmc m h`, `enumerate_models m h`, `wmc_gradient m h` each rebuild the bottom-up table of the
+   whole arena; a report reads all handles from one table per weight assignment (common subexpressions only:
+   see `wmcs_eq`, `models_eq`, `grads_eq` below). *)
+Definition wmcs (m : mgr) (hs : list N) : list Q :=
+  let tab := wmc_table m in map (fun h => nth (N.to_nat h) tab 0%Q) hs.
+Definition modelss (m : mgr) (hs : list N) : list (list (list lit)) :=
+  let tab := models_table m in map (fun h => nth (N.to_nat h) tab []) hs.
+Definition grads (m : mgr) (hs : list N) : list (list (N * Q)) :=
+  let tabs := map (fun vl => (fst vl, kind_of m (fst vl),
+                              wmc_table (set_weights (fst vl) 1 0 m), wmc_table (set_weights (fst vl) 0 1 m))) (var2vt m) in
+  map (fun h => map (fun t => match t with
+                              | (v, k, t1, t0) =>
+                                  let a := nth (N.to_nat h) t1 0%Q in
+                                  (v, match k with Indep => (a - nth (N.to_nat h) t0 0%Q)%Q | Excl _ => a end)
+                              end) tabs) hs.
+
+Lemma wmcs_eq : forall m hs, wmcs m hs = map (wmc m) hs.
+Proof. reflexivity. Qed.
+Lemma models_eq : forall m hs, modelss m hs = map (enumerate_models m) hs.
+Proof. reflexivity. Qed.
+Lemma grads_eq : forall m hs, grads m hs = map (wmc_gradient m) hs.
+Proof.
+  intros m hs. unfold grads, wmc_gradient. apply map_ext. intros h. rewrite map_map. apply map_ext.
+  intros [v l]. cbn [fst]. unfold grad_var, wmc. destruct (kind_of m v); reflexivity.
+Qed.
+
 (* the full report of a history:
    per step (code, handle, checkpoints consumed, node count); then per handle:
-   model truth table, spec truth table, wmc, models (cubes), gradient *)
+   model truth table, spec truth table, wmc, models (cubes), gradient; decomposability of the final manager *)
 Definition report (nv : N) (ops : list op) (detail : bool) :=
   let (s, steps) := run_from FUEL rinit ops in
   let m := rm s in
   (steps,
-   tables nv m (rh s),
-   map (fun f => table_of nv (fun sg => feval sg f)) (rf s),
-   map (fun h => qr (wmc m h)) (rh s),
-   if detail then map (fun h => map (map blit) (enumerate_models m h)) (rh s) else [],
-   if detail then map (fun h => map (fun vg => (fst vg, qr (snd vg))) (wmc_gradient m h)) (rh s) else [],
+   map words (tables nv m (rh s)),
+   map words (spec_tables nv ops (map (fun x => fst (fst (fst x))) steps)),
+   map qr (wmcs m (rh s)),
+   if detail then map (map (map blit)) (modelss m (rh s)) else [],
+   if detail then map (map (fun vg => (fst vg, qr (snd vg)))) (grads m (rh s)) else [],
    decomp_ok m).
 
 (* interruption: run `pre`, then the budgeted operation `o` under budget b, then `post`;
@@ -34,4 +86,4 @@ Definition interrupted (nv : N) (pre : list op) (o : op) (post : list op) :=
   let (s0, _) := run_from FUEL rinit pre in
   let (s1, r) := step FUEL s0 o in
   let (s2, rs) := run_from FUEL s1 post in
-  ([r], rs, tables nv (rm s2) (rh s2)).
+  ([r], rs, map words (tables nv (rm s2) (rh s2))).
